@@ -17,6 +17,12 @@ CHECKS = {
              "Trusted: Go string equality as the reference. Sampling beyond the exhaustive scope.",
              q={"checks": 20000, "shards": 1, "timeout": 300},
              t={"checks": 200000, "shards": 16, "timeout": 1500}),
+    "C09": P("pure", "TestC09",
+             "rapid generated operation histories vs insertion-ordered map model, invariant after every step",
+             "Generated histories of every metric operation (incl. wrong-length tuples, enumeration through the channel, JSON) are applied to a real metric and to an insertion-ordered map; the full state is compared after every step for every kind x type x arity.",
+             "Trusted: the 30-line map model. Bounded history length (40) and a 5-tuple universe; sampling.",
+             q={"checks": 3000, "shards": 1, "timeout": 300},
+             t={"checks": 25000, "shards": 16, "timeout": 1500}),
     "C15": P("pure", "TestC15",
              "exhaustive small-scope enumeration + rapid random streams/chunkings vs reference splitter",
              "Every byte stream up to length 5 (quick) / 7 (thorough) over {LF, CR, 'a', 0xe4} under every composition into reads and buffer sizes 1,2,3,64 is compared with a reference splitter; plus random streams to 70 KB with random chunking incl. zero-length reads. Exploration with an exhaustive small scope.",
